@@ -22,13 +22,24 @@ def Local (cfg : Cfg) (s : State) (c : Nat) : Prop :=
     s.src c = some (.exec c) ∧ s.started c = false ∧ s.execRes c = none ∧ s.result c = none
   | .running =>
     s.src c = some (.exec c) ∧ s.started c = true ∧ s.execRes c = none ∧ s.result c = none
-  | .ran r | .setDone r =>
+  | .ran r =>
     s.src c = some (.exec c) ∧ s.started c = true ∧ s.execRes c = some r ∧ s.result c = none
+  | .setDone r =>
+    -- after the caller's own execution …
+    (s.src c = some (.exec c) ∧ s.started c = true ∧ s.execRes c = some r ∧ s.result c = none)
+    -- … or after its re-check as leader found a live value: nothing ran
+    ∨ (∃ v, r = .ok v ∧ s.src c = some (.lhit c v) ∧ s.started c = false ∧ s.execRes c = none ∧ s.result c = none)
   | .done r =>
     (∃ v, r = .ok v ∧ s.src c = some (.hit v) ∧ s.started c = false ∧ s.execRes c = none ∧ s.result c = none)
     ∨ (s.src c = some (.exec c) ∧ s.started c = true ∧ s.execRes c = some r ∧ s.result c = some r)
     ∨ (∃ l, s.src c = some (.exec l) ∧ cfg.key l = cfg.key c ∧ s.result l = some r ∧
-          s.started c = false ∧ s.execRes c = none ∧ s.result c = none)
+          s.started c = false ∧ s.execRes c = none ∧ s.result c = none ∧ s.src l = some (.exec l))
+    -- the leader whose re-check hit the cache …
+    ∨ (∃ v, r = .ok v ∧ s.src c = some (.lhit c v) ∧ s.started c = false ∧ s.execRes c = none ∧
+          s.result c = some r)
+    -- … and the joiners of its flight
+    ∨ (∃ l v, r = .ok v ∧ s.src c = some (.lhit l v) ∧ cfg.key l = cfg.key c ∧ s.result l = some r ∧
+          s.started c = false ∧ s.execRes c = none ∧ s.result c = none ∧ s.src l = some (.lhit l v))
 
 /-- the invariant of the protocol (`c0` = the cache before the first step) -/
 structure Inv (cfg : Cfg) (c0 : Nat → Cell) (s : State) : Prop where
@@ -52,19 +63,82 @@ theorem inv_init (cfg : Cfg) (c0 : Nat → Cell) (now : Int) : Inv cfg c0 (init 
 theorem local_congr {cfg : Cfg} {s s' : State} {c : Nat}
     (hpc : s'.pc c = s.pc c) (hsrc : s'.src c = s.src c) (hst : s'.started c = s.started c)
     (hex : s'.execRes c = s.execRes c) (hres : ∀ l, s.result l = none ∨ s'.result l = s.result l)
+    (hsl : ∀ l, s.result l = none ∨ s'.src l = s.src l)
     (hresc : s'.result c = s.result c)
     (h : Local cfg s c) : Local cfg s' c := by
   unfold Local at h ⊢
-  rw [hpc]
-  split <;> simp_all
-  · rename_i r
-    rcases h with h | h | ⟨l, h1, h2, h3, h4⟩
+  rw [hpc, hsrc, hst, hex, hresc]
+  cases hp : s.pc c with
+  | done r =>
+    simp only [hp] at h ⊢
+    rcases h with h | h | ⟨l, h1, h2, h3, h4, h5, h6, h7⟩ | h | ⟨l, v, h0, h1, h2, h3, h4, h5, h6, h7⟩
     · exact Or.inl h
     · exact Or.inr (Or.inl h)
-    · refine Or.inr (Or.inr ⟨l, h1, h2, ?_, h4⟩)
-      rcases hres l with h5 | h5
-      · rw [h5] at h3; cases h3
-      · rw [h5]; exact h3
+    · have e1 : s'.result l = some r := by
+        rcases hres l with h8 | h8
+        · rw [h8] at h3; cases h3
+        · rw [h8]; exact h3
+      have e2 : s'.src l = some (.exec l) := by
+        rcases hsl l with h8 | h8
+        · rw [h8] at h3; cases h3
+        · rw [h8]; exact h7
+      exact Or.inr (Or.inr (Or.inl ⟨l, h1, h2, e1, h4, h5, h6, e2⟩))
+    · exact Or.inr (Or.inr (Or.inr (Or.inl h)))
+    · have e1 : s'.result l = some r := by
+        rcases hres l with h8 | h8
+        · rw [h8] at h3; cases h3
+        · rw [h8]; exact h3
+      have e2 : s'.src l = some (.lhit l v) := by
+        rcases hsl l with h8 | h8
+        · rw [h8] at h3; cases h3
+        · rw [h8]; exact h7
+      exact Or.inr (Or.inr (Or.inr (Or.inr ⟨l, v, h0, h1, h2, e1, h4, h5, h6, e2⟩)))
+  | idle => simp only [hp] at h ⊢; exact h
+  | start => simp only [hp] at h ⊢; exact h
+  | missed => simp only [hp] at h ⊢; exact h
+  | waiting l => simp only [hp] at h ⊢; exact h
+  | leader => simp only [hp] at h ⊢; exact h
+  | running => simp only [hp] at h ⊢; exact h
+  | ran r => simp only [hp] at h ⊢; exact h
+  | setDone r => simp only [hp] at h ⊢; exact h
+
+/-- the ghost source of a caller that has published nothing is the only one a step of that caller may change -/
+theorem src_keep {s : State} {a : Nat} {x : Option Src} (hra : s.result a = none) (l : Nat) :
+    s.result l = none ∨ upd s.src a x l = s.src l := by
+  by_cases h : l = a
+  · subst h; exact Or.inl hra
+  · exact Or.inr (upd_other _ _ _ _ h)
+
+/-- what a published result says about its leader: it has returned that result, which is the result of its
+own execution or the value its re-check read from the cache (and then nothing ran) -/
+theorem published_cases {cfg : Cfg} {s : State} {l : Nat} {r : Res} (hl : Local cfg s l)
+    (hr : s.result l = some r) :
+    s.pc l = .done r ∧
+      ((s.src l = some (.exec l) ∧ s.started l = true ∧ s.execRes l = some r) ∨
+       (∃ v, r = .ok v ∧ s.src l = some (.lhit l v) ∧ s.started l = false ∧ s.execRes l = none)) := by
+  unfold Local at hl
+  cases hp : s.pc l with
+  | done r' =>
+    simp only [hp] at hl
+    rcases hl with ⟨v, _, _, _, _, h⟩ | ⟨h1, h2, h3, h4⟩ | ⟨l', _, _, _, _, _, h, _⟩ | ⟨v, h0, h1, h2, h3, h4⟩ |
+      ⟨l', v, _, _, _, _, _, _, h, _⟩
+    · rw [h] at hr; cases hr
+    · rw [h4] at hr; cases hr; exact ⟨rfl, Or.inl ⟨h1, h2, h3⟩⟩
+    · rw [h] at hr; cases hr
+    · rw [h4] at hr; cases hr; exact ⟨rfl, Or.inr ⟨v, h0, h1, h2, h3⟩⟩
+    · rw [h] at hr; cases hr
+  | idle => simp only [hp] at hl; rw [hl.2.2.2] at hr; cases hr
+  | start => simp only [hp] at hl; rw [hl.2.2.2] at hr; cases hr
+  | missed => simp only [hp] at hl; rw [hl.2.2.2] at hr; cases hr
+  | waiting x => simp only [hp] at hl; rw [hl.2.2.2.1] at hr; cases hr
+  | leader => simp only [hp] at hl; rw [hl.2.2.2] at hr; cases hr
+  | running => simp only [hp] at hl; rw [hl.2.2.2] at hr; cases hr
+  | ran x => simp only [hp] at hl; rw [hl.2.2.2] at hr; cases hr
+  | setDone x =>
+    simp only [hp] at hl
+    rcases hl with h | ⟨v, _, _, _, _, h⟩
+    · rw [h.2.2.2] at hr; cases hr
+    · rw [h] at hr; cases hr
 
 theorem cellSet_cases (e now : Int) (c : Cell) (v : Int) :
     cellSet e now c v = c ∨ cellSet e now c v = some (v, defaultExp e now) := by
@@ -78,10 +152,11 @@ theorem cellSet_cases (e now : Int) (c : Cell) (v : Int) :
 theorem upd_apply {α : Type} (f : Nat → α) (a x : Nat) (b : α) : upd f a b x = if x = a then b else f x := rfl
 
 /-- callers other than the one that moved keep their `Local` fact (no result published in this step) -/
-macro "others " s:term:max hca:term:max h:term:max : tactic =>
+macro "others " s:term:max hca:term:max hra:term:max h:term:max : tactic =>
   `(tactic| exact local_congr (s := $s) (by first | rfl | exact upd_other _ _ _ _ $hca)
       (by first | rfl | exact upd_other _ _ _ _ $hca) (by first | rfl | exact upd_other _ _ _ _ $hca)
-      (by first | rfl | exact upd_other _ _ _ _ $hca) (fun _ => Or.inr rfl) rfl $h)
+      (by first | rfl | exact upd_other _ _ _ _ $hca) (fun _ => Or.inr rfl)
+      (by first | exact fun _ => Or.inr rfl | exact src_keep $hra) rfl $h)
 
 
 /-- the in-flight clause when the leader `a` of its key moves from `old` to `new` -/
@@ -116,6 +191,7 @@ theorem inv_cacheCheck {cfg : Cfg} {c0 : Nat → Cell} {s s' : State} {a : Nat}
   rename_i hpc
   have ha := h4 a
   simp only [Local, hpc] at ha
+  have hra : s.result a = none := ha.2.2.2
   split at hs <;> simp at hs <;> subst hs
   · refine ⟨?_, h2, ?_, ?_, h5⟩
     · intro c hc
@@ -129,7 +205,7 @@ theorem inv_cacheCheck {cfg : Cfg} {c0 : Nat → Cell} {s s' : State} {a : Nat}
       · subst hca
         simp only [Local, upd_same]
         simp [ha]
-      · others s hca (h4 c)
+      · others s hca hra (h4 c)
   · refine ⟨?_, h2, ?_, ?_, h5⟩
     · intro c hc
       have := h1 c
@@ -142,7 +218,7 @@ theorem inv_cacheCheck {cfg : Cfg} {c0 : Nat → Cell} {s s' : State} {a : Nat}
       · subst hca
         simp only [Local, upd_same]
         simp [ha]
-      · others s hca (h4 c)
+      · others s hca hra (h4 c)
 
 theorem inv_doEnter {cfg : Cfg} {c0 : Nat → Cell} {s s' : State} {a : Nat}
     (h : Inv cfg c0 s) (hs : step cfg s (.doEnter a) = some s') : Inv cfg c0 s' := by
@@ -152,6 +228,7 @@ theorem inv_doEnter {cfg : Cfg} {c0 : Nat → Cell} {s s' : State} {a : Nat}
   rename_i hpc
   have ha := h4 a
   simp only [Local, hpc] at ha
+  have hra : s.result a = none := ha.2.2.2
   split at hs <;> simp at hs <;> subst hs
   · rename_i l hl
     refine ⟨?_, h2, ?_, ?_, h5⟩
@@ -167,7 +244,7 @@ theorem inv_doEnter {cfg : Cfg} {c0 : Nat → Cell} {s s' : State} {a : Nat}
         have := h2 _ _ hl
         simp only [Local, upd_same]
         simp [ha, this]
-      · others s hca (h4 c)
+      · others s hca hra (h4 c)
   · rename_i hl
     refine ⟨?_, ?_, ?_, ?_, h5⟩
     · intro c hc
@@ -185,7 +262,7 @@ theorem inv_doEnter {cfg : Cfg} {c0 : Nat → Cell} {s s' : State} {a : Nat}
       · subst hca
         simp only [Local, upd_same]
         simp [ha]
-      · others s hca (h4 c)
+      · others s hca hra (h4 c)
 
 theorem inv_invoke {cfg : Cfg} {c0 : Nat → Cell} {s s' : State} {a : Nat}
     (h : Inv cfg c0 s) (hs : step cfg s (.invoke a) = some s') : Inv cfg c0 s' := by
@@ -195,6 +272,7 @@ theorem inv_invoke {cfg : Cfg} {c0 : Nat → Cell} {s s' : State} {a : Nat}
   rename_i hpc
   have ha := h4 a
   simp only [Local, hpc] at ha
+  have hra : s.result a = none := ha.2.2.2
   subst hs
   refine ⟨?_, h2, ?_, ?_, h5⟩
   · intro c hc
@@ -208,7 +286,35 @@ theorem inv_invoke {cfg : Cfg} {c0 : Nat → Cell} {s s' : State} {a : Nat}
     · subst hca
       simp only [Local, upd_same]
       simp [ha]
-    · others s hca (h4 c)
+    · others s hca hra (h4 c)
+
+/-- the leader's re-check finds a live value: nothing about executions or the cache changes -/
+theorem inv_leadHit {cfg : Cfg} {c0 : Nat → Cell} {s s' : State} {a : Nat}
+    (h : Inv cfg c0 s) (hs : step cfg s (.leadHit a) = some s') : Inv cfg c0 s' := by
+  simp only [step] at hs
+  obtain ⟨h1, h2, h3, h4, h5⟩ := h
+  split at hs <;> try (simp at hs)
+  rename_i hpc
+  have ha := h4 a
+  simp only [Local, hpc] at ha
+  have hra : s.result a = none := ha.2.2.2
+  split at hs <;> simp at hs
+  rename_i v hv
+  subst hs
+  refine ⟨?_, h2, ?_, ?_, h5⟩
+  · intro c hc
+    have := h1 c
+    have := h1 a
+    grind [upd_apply, active]
+  · intro k
+    have := h3 k
+    grind [upd_apply]
+  · intro c
+    by_cases hca : c = a
+    · subst hca
+      simp only [Local, upd_same]
+      exact Or.inr ⟨v, rfl, rfl, ha.2.1, ha.2.2.1, ha.2.2.2⟩
+    · others s hca hra (h4 c)
 
 theorem inv_fnStart {cfg : Cfg} {c0 : Nat → Cell} {s s' : State} {a : Nat}
     (h : Inv cfg c0 s) (hs : step cfg s (.fnStart a) = some s') : Inv cfg c0 s' := by
@@ -218,7 +324,9 @@ theorem inv_fnStart {cfg : Cfg} {c0 : Nat → Cell} {s s' : State} {a : Nat}
   rename_i hpc
   have ha := h4 a
   simp only [Local, hpc] at ha
+  have hra : s.result a = none := ha.2.2.2
   have hfa := h1 a (by simp [hpc, active])
+  split at hs <;> simp at hs
   subst hs
   refine ⟨?_, h2, ?_, ?_, h5⟩
   · intro c hc
@@ -234,7 +342,7 @@ theorem inv_fnStart {cfg : Cfg} {c0 : Nat → Cell} {s s' : State} {a : Nat}
     · subst hca
       simp only [Local, upd_same]
       simp [ha]
-    · others s hca (h4 c)
+    · others s hca hra (h4 c)
 
 theorem inv_fnEnd {cfg : Cfg} {c0 : Nat → Cell} {s s' : State} {a : Nat} {r : Res}
     (h : Inv cfg c0 s) (hs : step cfg s (.fnEnd a r) = some s') : Inv cfg c0 s' := by
@@ -244,6 +352,7 @@ theorem inv_fnEnd {cfg : Cfg} {c0 : Nat → Cell} {s s' : State} {a : Nat} {r : 
   rename_i hpc
   have ha := h4 a
   simp only [Local, hpc] at ha
+  have hra : s.result a = none := ha.2.2.2
   have hfa := h1 a (by simp [hpc, active])
   subst hs
   refine ⟨?_, h2, ?_, ?_, ?_⟩
@@ -260,7 +369,7 @@ theorem inv_fnEnd {cfg : Cfg} {c0 : Nat → Cell} {s s' : State} {a : Nat} {r : 
     · subst hca
       simp only [Local, upd_same]
       simp [ha]
-    · others s hca (h4 c)
+    · others s hca hra (h4 c)
   · intro k v e hk
     rcases h5 k v e hk with h | ⟨l, hl1, hl2⟩
     · exact Or.inl h
@@ -278,6 +387,7 @@ theorem inv_cacheSet {cfg : Cfg} {c0 : Nat → Cell} {s s' : State} {a : Nat}
   · rename_i v hpc
     have ha := h4 a
     simp only [Local, hpc] at ha
+    have hra : s.result a = none := ha.2.2.2
     subst hs
     refine ⟨?_, h2, ?_, ?_, ?_⟩
     · intro c hc
@@ -291,8 +401,8 @@ theorem inv_cacheSet {cfg : Cfg} {c0 : Nat → Cell} {s s' : State} {a : Nat}
       by_cases hca : c = a
       · subst hca
         simp only [Local, upd_same]
-        simp [ha]
-      · others s hca (h4 c)
+        exact Or.inl ha
+      · others s hca hra (h4 c)
     · intro k v' e hk
       simp only [upd_apply] at hk
       split at hk
@@ -306,6 +416,7 @@ theorem inv_cacheSet {cfg : Cfg} {c0 : Nat → Cell} {s s' : State} {a : Nat}
   · rename_i hpc
     have ha := h4 a
     simp only [Local, hpc] at ha
+    have hra : s.result a = none := ha.2.2.2
     subst hs
     refine ⟨?_, h2, ?_, ?_, h5⟩
     · intro c hc
@@ -319,8 +430,8 @@ theorem inv_cacheSet {cfg : Cfg} {c0 : Nat → Cell} {s s' : State} {a : Nat}
       by_cases hca : c = a
       · subst hca
         simp only [Local, upd_same]
-        simp [ha]
-      · others s hca (h4 c)
+        exact Or.inl ha
+      · others s hca hra (h4 c)
 
 theorem inv_doFinish {cfg : Cfg} {c0 : Nat → Cell} {s s' : State} {a : Nat}
     (h : Inv cfg c0 s) (hs : step cfg s (.doFinish a) = some s') : Inv cfg c0 s' := by
@@ -330,6 +441,10 @@ theorem inv_doFinish {cfg : Cfg} {c0 : Nat → Cell} {s s' : State} {a : Nat}
   rename_i r hpc
   have ha := h4 a
   simp only [Local, hpc] at ha
+  have hra : s.result a = none := by
+    rcases ha with ha | ⟨v, _, _, _, _, ha⟩
+    · exact ha.2.2.2
+    · exact ha
   have hfa := h1 a (by simp [hpc, active])
   subst hs
   refine ⟨?_, ?_, ?_, ?_, h5⟩
@@ -348,12 +463,15 @@ theorem inv_doFinish {cfg : Cfg} {c0 : Nat → Cell} {s s' : State} {a : Nat}
     by_cases hca : c = a
     · subst hca
       simp only [Local, upd_same]
-      simp [ha]
+      rcases ha with ha | ⟨v, k0, k1, k2, k3, _⟩
+      · exact Or.inr (Or.inl ⟨ha.1, ha.2.1, ha.2.2.1, trivial⟩)
+      · exact Or.inr (Or.inr (Or.inr (Or.inl ⟨v, k0, k1, k2, k3, trivial⟩)))
     · exact local_congr (s := s) (upd_other _ _ _ _ hca) rfl rfl rfl
         (fun l => by
           by_cases hla : l = a
-          · subst hla; exact Or.inl ha.2.2.2
+          · subst hla; exact Or.inl hra
           · exact Or.inr (upd_other _ _ _ _ hla))
+        (fun _ => Or.inr rfl)
         (upd_other _ _ _ _ hca) (h4 c)
 
 theorem inv_wake {cfg : Cfg} {c0 : Nat → Cell} {s s' : State} {a : Nat}
@@ -364,6 +482,7 @@ theorem inv_wake {cfg : Cfg} {c0 : Nat → Cell} {s s' : State} {a : Nat}
   rename_i l hpc
   have ha := h4 a
   simp only [Local, hpc] at ha
+  have hra : s.result a = none := ha.2.2.2.1
   split at hs <;> simp at hs
   rename_i r hr
   subst hs
@@ -377,9 +496,18 @@ theorem inv_wake {cfg : Cfg} {c0 : Nat → Cell} {s s' : State} {a : Nat}
   · intro c
     by_cases hca : c = a
     · subst hca
+      have hlc : l ≠ c := by intro h; subst h; rw [hra] at hr; cases hr
       simp only [Local, upd_same]
-      exact Or.inr (Or.inr ⟨l, ha.1, ha.2.2.2.2, hr, ha.2.1, ha.2.2.1, ha.2.2.2.1⟩)
-    · others s hca (h4 c)
+      rcases (published_cases (h4 l) hr).2 with ⟨k1, _, _⟩ | ⟨v, k0, k1, _, _⟩
+      · have e1 : wakeSrc s c l = some (.exec l) := by simp only [wakeSrc, k1]; exact ha.1
+        rw [e1]
+        exact Or.inr (Or.inr (Or.inl ⟨l, rfl, ha.2.2.2.2, hr, ha.2.1, ha.2.2.1, ha.2.2.2.1,
+          (upd_other _ _ _ _ hlc).trans k1⟩))
+      · have e1 : wakeSrc s c l = some (.lhit l v) := by simp only [wakeSrc, k1]
+        rw [e1]
+        exact Or.inr (Or.inr (Or.inr (Or.inr ⟨l, v, k0, rfl, ha.2.2.2.2, hr, ha.2.1, ha.2.2.1, ha.2.2.2.1,
+          (upd_other _ _ _ _ hlc).trans k1⟩)))
+    · others s hca hra (h4 c)
 
 theorem inv_tick {cfg : Cfg} {c0 : Nat → Cell} {s s' : State} {d : Nat}
     (h : Inv cfg c0 s) (hs : step cfg s (.tick d) = some s') : Inv cfg c0 s' := by
@@ -394,6 +522,7 @@ theorem inv_step {cfg : Cfg} {c0 : Nat → Cell} {s s' : State} {l : Label}
   | invoke a => exact inv_invoke h hs
   | cacheCheck a => exact inv_cacheCheck h hs
   | doEnter a => exact inv_doEnter h hs
+  | leadHit a => exact inv_leadHit h hs
   | fnStart a => exact inv_fnStart h hs
   | fnEnd a r => exact inv_fnEnd h hs
   | cacheSet a => exact inv_cacheSet h hs
